@@ -157,3 +157,54 @@ def _ps_interp(args):
 
 
 FROM_SEQ.ghost_interp = _ps_interp
+
+
+# ---- gen_seq._find_terminal_nodes: a terminus is a residue with exactly one neighbour -----------------------------------------------
+from pyvc.types import TDict as _TD, SDict as _SD      # noqa: E402
+from pyvc.methods import nx_degree as _deg              # noqa: E402
+TG = TGraph(TRec("nodeattrs", seqid=TInt))
+REG3 = Registry()
+x_ = z3.Const("x_", TNode.sort)
+
+
+def _isn(g, x):
+    return z3.Select(g.fields["nodes"].dom, x)
+
+
+def _d1(g, x):
+    return _deg(g.fields["adj"].dom, x) == 1
+
+
+def term_sound(g, Y, upto=None, pos=None):
+    e = slist_get(Y, i_)
+    seen = z3.BoolVal(True) if pos is None else pos(e) < upto
+    return z3.ForAll([i_], z3.Implies(z3.And(0 <= i_, i_ < Y.n), z3.And(_isn(g, e), _d1(g, e), seen)))
+
+
+def term_distinct(Y):
+    return z3.ForAll([i_, j_], z3.Implies(z3.And(0 <= i_, i_ < j_, j_ < Y.n), slist_get(Y, i_) != slist_get(Y, j_)))
+
+
+def term_complete_wit(g, Y, w, upto, pos):
+    wi = w.comps[0][x_]
+    return z3.ForAll([x_], z3.Implies(z3.And(_isn(g, x_), pos(x_) < upto, _d1(g, x_)), z3.And(0 <= wi, wi < Y.n, slist_get(Y, wi) == x_)))
+
+
+def term_complete(g, Y):
+    return z3.ForAll([x_], z3.Implies(z3.And(_isn(g, x_), _d1(g, x_)), z3.Exists([i_], z3.And(0 <= i_, i_ < Y.n, slist_get(Y, i_) == x_))))
+
+
+def _hook_term(eng, env):
+    w, Y, x = env["_tw"], env["termini"], env["node"]
+    env["_tw"] = _SD(w.k, w.v, w.dom, [z3.Store(w.comps[0], x, Y.n - 1)])
+
+
+TERMINAL_NODES = REG3.add(Contract(
+    "polyply.src.gen_seq:_find_terminal_nodes", params=dict(graph=TG), result=TList(TNode),
+    ensures={"every listed node is a node of the graph with exactly one neighbour": "term_sound(graph, result)",
+             "every such node is listed": "term_complete(graph, result)", "none twice": "term_distinct(result)"},
+    locals={"termini": TList(TNode)}, ghost_locals={"_tw": _TD(TNode, TInt)}, ghost={"after:termini.append(node)": _hook_term},
+    loops={0: Loop({"sound": "term_sound(graph, termini, k, _pos0)", "complete (ghost index)": "term_complete_wit(graph, termini, _tw, k, _pos0)",
+                    "distinct": "term_distinct(termini)"}, modifies=["_tw"])},
+    spec_fns=dict(term_sound=term_sound, term_complete=term_complete, term_complete_wit=term_complete_wit, term_distinct=term_distinct),
+    props=("C12",), note="networkx degree is an uninterpreted function of the adjacency relation (its graph-theoretic meaning is supplied in the conformance test)"))
